@@ -50,7 +50,8 @@ def run(ctx, rep):
                      NotImplemented=NotImplemented, EMPTY_SET=frozenset(), EMPTY_SEQ=()), where='lang/lex.py sentence classes')
     it.g['Constant'] = ConstantT
     ConstantT.__class__ = type('CT', (Obj,), {'__call__': lambda s_, c: ('Constant', c)})
-    a, b, c, x = tuple(Obj(n, typ=ConstantT) for n in 'abc') + (Obj('x', typ=VariableT),)
+    # constants and variables share one coordinate space: a and x both have coordinates (0, 0)
+    a, b, c, x = tuple(Obj(n, typ=ConstantT, spec=(i, 0), index=i, subscript=0) for i, n in enumerate('abc')) + (Obj('x', typ=VariableT, spec=(0, 0), index=0, subscript=0),)
 
     # ---- Predicated
     class Params(tuple):
@@ -60,6 +61,7 @@ def run(ctx, rep):
     for params in ((a, b, a), (a, x), (b,), (x, x, a)):
         for pold, pnew in itertools.product((a, b, x), (a, c, x)):
             s = Params(params)
+            s.params = tuple(params)
             s.predicate = lambda ps: ('PRED', tuple(ps))
             r = it.safe(f_sub, [s, pnew, pold])
             want = s if pnew is pold else ('PRED', tuple(pnew if p is pold else p for p in params))
@@ -73,6 +75,7 @@ def run(ctx, rep):
         ok = isinstance(g, ast.FunctionDef)
         if ok:
             s = Params((a, x, b, a))
+            s.params = (a, x, b, a)
             r = it.safe(g, [s])
             want = frozenset(p for p in (a, x, b, a) if p._typ is T)
             ok = r == want
@@ -119,7 +122,7 @@ def run(ctx, rep):
     # ---- Quantified
     body = child(1)
     Q = lambda v, s: ('QUANT', v, s)
-    qs = Obj('quantified', quantifier=Q, variable='VAR', sentence=body)
+    qs = Obj('quantified', quantifier=Q, variable='VAR', sentence=body, items=(Q, 'VAR', body))
     for attr in ATTRS:
         g = getter_or_attr(m, 'Quantified', attr)
         ok = isinstance(g, ast.FunctionDef)
@@ -160,26 +163,31 @@ def run(ctx, rep):
     # ---- Operated
     class Operands(tuple):
         pass
+    OP = lambda args: ('OPER', tuple(args))
+    same = child(3)
+    for label, kids in (('distinct', (child(1), child(2))), ('identical', (same, same)), ('unary', (child(4),))):
+        ops = Operands(kids)
+        ops.operator, ops.operands, ops.lhs, ops.rhs = OP, tuple(kids), kids[0], kids[-1]
+        for attr in ATTRS:
+            g = getter_or_attr(m, 'Operated', attr)
+            ok = isinstance(g, ast.FunctionDef)
+            r = None
+            if ok:
+                r = it.safe(g, [ops])
+                if attr in SETS:
+                    want = frozenset().union(*(getattr(k, attr) for k in kids))
+                elif attr == 'operators':
+                    want = (OP,) + tuple(x for k in kids for x in k.operators)
+                else:
+                    want = tuple(x for k in kids for x in k.quantifiers)
+                ok = r == want and type(r) is type(want)
+            rep.instance(R2, ok=ok, nontrivial=('Operated', attr, label))
+            if not ok:
+                rep.finding(R2, f'C15.R2/Operated.{attr}/{label}', m.relfile(LEX), f'Operated.{attr}',
+                            f'{label} operands: is not the union/concatenation (in operand order, with multiplicity) of the operands\' {attr} (got {r!r}, expected {want!r})')
     kids = (child(1), child(2))
     ops = Operands(kids)
-    OP = lambda args: ('OPER', tuple(args))
-    ops.operator = OP
-    for attr in ATTRS:
-        g = getter_or_attr(m, 'Operated', attr)
-        ok = isinstance(g, ast.FunctionDef)
-        r = None
-        if ok:
-            r = it.safe(g, [ops])
-            if attr in SETS:
-                want = frozenset().union(*(getattr(k, attr) for k in kids))
-            elif attr == 'operators':
-                want = (OP,) + kids[0].operators + kids[1].operators
-            else:
-                want = kids[0].quantifiers + kids[1].quantifiers
-            ok = r == want and type(r) is type(want)
-        rep.instance(R2, ok=ok, nontrivial=('Operated', attr))
-        if not ok:
-            rep.finding(R2, f'C15.R2/Operated.{attr}', m.relfile(LEX), f'Operated.{attr}', f'is not the union/concatenation (in operand order) of the operands\' {attr} (got {r!r})')
+    ops.operator, ops.operands, ops.lhs, ops.rhs = OP, tuple(kids), kids[0], kids[-1]
     fo = m.func(LEX, 'Operated.substitute')
     rep.consult(m.loc(LEX, fo) + ' Operated.substitute')
     for pn, po in (('n', 'o'), ('n', 'n')):
